@@ -54,7 +54,7 @@ PROPS['C09'] = {
 PROPS['C06'] = {
     'module': 'SuironVerif.Props.C06',
     'theorems': ['Suiron.C06.unify_extends', 'Suiron.C06.unify_result_wf', 'Suiron.C06.unify_general', 'Suiron.C06.unify_no_false_failure',
-                 'Suiron.C06.unify_keeps_wf', 'Suiron.C06.failure_means_no_unifier', 'Suiron.C06.unify_sound', 'Suiron.C06.unify_mgu'],
+                 'Suiron.C06.unify_keeps_wf', 'Suiron.C06.failure_means_no_unifier', 'Suiron.C06.unify_sound', 'Suiron.C06.unify_mgu', 'Suiron.C06.unify_outcome_unique'],
     'oracles': ['C06'],
     'suites': {
         'quick': unify_runs('C06', 4000, [[], ['--anon']], exhaustive=[([], 1)]),
@@ -68,7 +68,7 @@ PROPS['C06'] = {
         "E (earlier bindings kept), G (every unifier validating the prior set validates the result), C (a reported failure means no unifier extends the prior set), S (every "
         "substitution validating the result unifies the operands; `$_`-free operands), hence `unify_mgu`: the solutions of the result are exactly the unifiers of the operands "
         "among the solutions of the prior set; well-formedness is preserved so the theorems chain. Outside the theorems: existence of a solution of the result (acyclicity; "
-        "fails only in occurs-check situations, which the property excludes), termination (fuel), `$_` in the S direction (C09)",
+        "fails only in occurs-check situations, which the property excludes), termination (that SOME fuel suffices; the outcome is proved independent of the fuel, unify_outcome_unique), `$_` in the S direction (C09)",
         "oracle on the implementation (anon-free, function-free cases): success agrees with Robinson unification with occurs check under the prior "
         "substitution (occurs-check situations dropped); every earlier binding is kept verbatim; both operands resolve to the same term; the resolved "
         "values of all variables are a variant of the reference mgu under one variable bijection",
@@ -169,7 +169,7 @@ ENGINE_ASSUME = ("the property oracle compares the implementation's answers / ou
 PROPS['C01'] = {
     'exhaustive_in': {'quick': True, 'thorough': True},
     'module': 'SuironVerif.Props.C01',
-    'theorems': ['Suiron.C01.C01_pure', 'Suiron.C01.C01_pure_node', 'Suiron.C01.askN_sound', 'Suiron.C01.answers_are_derivable_partial', 'Suiron.C01.sigma_const_partial', 'Suiron.C01.format_var_partial', 'Suiron.C01.format_skip_nonvar_partial', 'Suiron.C01.machine_answer_partial'],
+    'theorems': ['Suiron.C01.C01_pure', 'Suiron.C01.C01_exact', 'Suiron.C01.request_independent_of_fuel', 'Suiron.C01.C01_pure_node', 'Suiron.C01.askN_sound', 'Suiron.C01.answers_are_derivable_partial', 'Suiron.C01.sigma_const_partial', 'Suiron.C01.format_var_partial', 'Suiron.C01.format_skip_nonvar_partial', 'Suiron.C01.machine_answer_partial'],
     'oracles': ['C01'],
     'suites': {
         'quick': engine_runs('C01', 1500, [['--pure'], ['--pure', '--print', '2'], []], what='answers'),
@@ -180,8 +180,9 @@ PROPS['C01'] = {
                     "conjunction, disjunction and not(...), every query, fuel and number of requests, the answers (and the text written so far) of the successive requests are exactly "
                     "those of the reference machine Spec/PureMachine.lean started on the query - same answers, order, multiplicity, none for ever once it is exhausted; "
                     "(2) SOUNDNESS for all programs (every answer is SLD-derivable, Spec/SLD.lean), whatever cuts / negations ran; (3) no leakage between alternatives, the "
-                    "answer formatting. PARTIAL: the refinement for programs with `!` or time(...) is not proved (machine comparison on every run); uniqueness of the "
-                    "machine's run (fuel-monotonicity of the unification model) is not proved",
+                    "answer formatting. The machine is proved deterministic (Lemmas/MachineDet.lean, from the fuel monotonicity of every model function, Lemmas/FuelMono.lean), so `exactly` is literal: "
+                    "C01_exact. PARTIAL: the refinement for programs with `!` or time(...) is not proved (machine comparison on every run); termination (that a request "
+                    "returns for some fuel) is outside the theorems - the outcome is proved independent of the fuel (request_independent_of_fuel)",
                     ENGINE_ASSUME],
 }
 PROPS['C02'] = {
@@ -204,7 +205,7 @@ PROPS['C03'] = {
     'exhaustive_in': {'quick': True, 'thorough': True},
     'module': 'SuironVerif.Props.C03',
     'theorems': ['Suiron.C03.not_once', 'Suiron.C03.not_hides_bindings', 'Suiron.C03.not_iff', 'Suiron.C03.not_then_exhausted',
-                 'Suiron.C03.inner_search_is_reference', 'Suiron.C03.C03_reference'],
+                 'Suiron.C03.inner_search_is_reference', 'Suiron.C03.C03_reference', 'Suiron.C03.C03_iff'],
     'oracles': ['C03'],
     'suites': {
         'quick': engine_runs('C03', 1500, [['--not', '8', '--cut', '0'], ['--not', '6', '--cut', '2'], ['--not', '8', '--print', '3', '--cut', '0'], ['--not', '8', '--cut', '4', '--cut-in-not']], what='both'),
@@ -587,7 +588,8 @@ LEVEL_TEXT = {
            'its terms. Tied to the code by the builtins correspondence suite and its oracles.',
     'C01': 'Proved in Lean for all knowledge bases, queries, fuel values and numbers of requests: (1) on the cut-free fragment (calls, built-ins, `,`, `;`, not) the engine model REFINES the '
            'reference machine (depth-first, left-to-right, clause-order resolution as a stack of goals/try/negation frames): successive requests return exactly the machine\'s '
-           'answers, in order, with multiplicity, and none for ever once it is exhausted, with the same output at every point; (2) for ALL programs every answer ever '
+           'answers, in order, with multiplicity, and none for ever once it is exhausted, with the same output at every point - and the machine is deterministic, so these are '
+           'THE answers of the reference (C01_exact); the outcome of a request does not depend on the fuel of the model; (2) for ALL programs every answer ever '
            'returned is an SLD-derivable answer (soundness); (3) node substitution sets are immutable (no leakage between alternatives); the answer formatting. PARTIAL: '
            'the refinement for programs with `!` or time - decided by running implementation, engine model and the marker machine (executable Lean) on the same '
            'generated programs on every check, request by request (substitution sets with ids, counters, stdout) resp. answer by answer.',
@@ -597,7 +599,7 @@ LEVEL_TEXT = {
            '(callers and siblings unaffected). Model tied to the code, and engine compared with the reference machine, on every run.',
     'C03': 'Proved in Lean: the first request on a not-node asks G once and returns its own, unchanged substitution set iff G has no '
            'answer, none otherwise; afterwards the node is exhausted; for every cut-free G and knowledge base `G has no answer` is the reference search for G running '
-           'to the empty stack, and `none` is that search showing an answer (C03_reference; negation is part of the refinement theorem of C01). G containing `!` / time: '
+           'to the empty stack, and `none` is that search showing an answer, as equivalences (C03_iff: the reference machine is deterministic; negation is part of the refinement theorem of C01). G containing `!` / time: '
            'agreement with the reference search is decided by the machine comparison.',
     'C04': 'Proved in Lean: on the cut-free fragment (negation included) the text written up to every request equals the text the reference machine has written at that point of '
            'its depth-first run (output component of the refinement theorem: once per execution, in execution order, retries included); a built-in node runs its effect '
